@@ -22,6 +22,9 @@ pub mod c04;
 pub mod c05;
 pub mod c07;
 pub mod c08;
+pub mod c09;
+pub mod both;
+pub mod c10;
 pub mod c11;
 pub mod c12;
 pub mod c13;
@@ -41,6 +44,8 @@ pub fn all() -> Vec<Box<dyn Check>> {
         Box::new(c05::C05),
         Box::new(c07::C07),
         Box::new(c08::C08),
+        Box::new(c09::C09),
+        Box::new(c10::C10),
         Box::new(c11::C11),
         Box::new(c12::C12),
         Box::new(c13::C13),
